@@ -114,6 +114,14 @@ theorem addChange_cases (s : St) (w : Nat) (data : String) (k : Kind) (h : Nat) 
       · exact Or.inr (Or.inr (Or.inl ⟨why, h1, h2, h3, h4, h5, h6⟩))
       · exact Or.inr (Or.inr (Or.inr ⟨_, _, h1, h2, h3, h4, h5⟩))
 
+/-- `remove_matched_publication` touches only the publication list and the ownership list -/
+theorem removePub_cases (s : St) (w : Nat) :
+    removePub s w = s ∨ ∃ p o, removePub s w = { s with pubs := p, owns := o } := by
+  unfold removePub
+  split
+  · exact Or.inr ⟨_, _, rfl⟩
+  · exact Or.inl rfl
+
 /-! ### counting lemmas -/
 
 theorem cnt_append (p : Sample → Bool) (a b : List Sample) : cnt p (a ++ b) = cnt p a + cnt p b := by
